@@ -932,6 +932,123 @@ func init() {
 			b.WriteString("].\n\n")
 		}
 
+		// ---- composition of files (C16): the memo of checkRender and the URL flags of the emitter around an import
+		{
+			// compilation.renderImportMacro memoises the lowering of `render "path"` (a dummy import and a dummy
+			// macro): it must be keyed by the rendered file (*ast.Tree), not by the path as it is written
+			obj := cc.Types.Scope().Lookup("compilation")
+			if obj == nil {
+				panic("type compilation not found")
+			}
+			st, ok := obj.Type().Underlying().(*types.Struct)
+			if !ok {
+				panic("compilation is not a struct")
+			}
+			keyed := ""
+			for i := 0; i < st.NumFields(); i++ {
+				if f := st.Field(i); f.Name() == "renderImportMacro" {
+					m, ok := f.Type().Underlying().(*types.Map)
+					if !ok {
+						panic("compilation.renderImportMacro is not a map")
+					}
+					keyed = types.TypeString(m.Key(), func(p *types.Package) string { return p.Name() })
+				}
+			}
+			if keyed == "" {
+				panic("field compilation.renderImportMacro not found")
+			}
+			// every index expression on the memo inside checkRender uses render.Tree (directly or through a local)
+			cr := findMethod(cc, "typechecker", "checkRender")
+			if cr == nil {
+				panic("method typechecker.checkRender not found")
+			}
+			sites, byTree := 0, 0
+			ast.Inspect(cr.Body, func(n ast.Node) bool {
+				ix, ok := n.(*ast.IndexExpr)
+				if !ok || !strings.HasSuffix(types.ExprString(ix.X), "renderImportMacro") {
+					return true
+				}
+				sites++
+				k := types.ExprString(ix.Index)
+				if k == "render.Tree" {
+					byTree++
+				} else if id, ok := ix.Index.(*ast.Ident); ok {
+					// a local defined as `tree := render.Tree`
+					ast.Inspect(cr.Body, func(m ast.Node) bool {
+						if as, ok := m.(*ast.AssignStmt); ok && len(as.Lhs) == 1 && len(as.Rhs) == 1 {
+							if l, ok := as.Lhs[0].(*ast.Ident); ok && cc.TypesInfo.ObjectOf(l) == cc.TypesInfo.ObjectOf(id) && types.ExprString(as.Rhs[0]) == "render.Tree" {
+								byTree++
+								return false
+							}
+						}
+						return true
+					})
+				}
+				return true
+			})
+			if sites == 0 {
+				panic("checkRender does not index compilation.renderImportMacro")
+			}
+			fmt.Fprintf(b, "(* compilation.go / checker_expressions.go: the memo of the lowering of a render expression is keyed by the\n   rendered file: key type %s, %d of %d index expressions of checkRender use render.Tree *)\nDefinition gen_render_memo_by_tree : bool := %s.\n\n",
+				keyed, byTree, sites, coqBool(keyed == "*ast.Tree" && byTree == sites))
+
+			// emitNodes, case *ast.Import (template): the functions of an imported or rendered file are emitted
+			// with the URL flags of the emitter cleared (they belong to the attribute being emitted, not to the file)
+			en := findMethod(cc, "emitter", "emitNodes")
+			if en == nil {
+				panic("method emitter.emitNodes not found")
+			}
+			found, cleared := false, false
+			ast.Inspect(en.Body, func(n ast.Node) bool {
+				cl, ok := n.(*ast.CaseClause)
+				if !ok || len(cl.List) != 1 || types.ExprString(cl.List[0]) != "*ast.Import" {
+					return true
+				}
+				// the statements of the block that contains the call em.emitImport(node, true)
+				ast.Inspect(cl, func(m ast.Node) bool {
+					bl, ok := m.(*ast.BlockStmt)
+					if !ok {
+						return true
+					}
+					for i, stmt := range bl.List {
+						isCall := false
+						ast.Inspect(stmt, func(x ast.Node) bool {
+							if ce, ok := x.(*ast.CallExpr); ok && types.ExprString(ce.Fun) == "em.emitImport" {
+								isCall = true
+							}
+							return true
+						})
+						if _, nested := stmt.(*ast.IfStmt); isCall && !nested {
+							found = true
+							// an assignment of false to em.inURL and em.isURLSet among the statements before the call
+							u, su := false, false
+							for _, prev := range bl.List[:i] {
+								if as, ok := prev.(*ast.AssignStmt); ok && len(as.Lhs) == len(as.Rhs) {
+									for j, l := range as.Lhs {
+										if types.ExprString(as.Rhs[j]) == "false" {
+											switch types.ExprString(l) {
+											case "em.inURL":
+												u = true
+											case "em.isURLSet":
+												su = true
+											}
+										}
+									}
+								}
+							}
+							cleared = u && su
+						}
+					}
+					return true
+				})
+				return false
+			})
+			if !found {
+				panic("emitNodes: the call em.emitImport(node, true) of case *ast.Import not found")
+			}
+			fmt.Fprintf(b, "(* emitter_statements.go emitNodes, case *ast.Import: em.inURL and em.isURLSet are set to false before em.emitImport *)\nDefinition gen_import_clears_url_flags : bool := %s.\n\n", coqBool(cleared))
+		}
+
 		fmt.Fprintf(b, "(* escapers.go queryEscape: bytes written for byte c when it is not copied *)\nDefinition gen_queryEscape : list (N * list N) := [")
 		first := true
 		for c := int64(0); c < 256; c++ {
